@@ -1028,7 +1028,7 @@ def plain_render(env: Any, name: str, data: dict, use_async: bool = False) -> tu
 
 PIECES = ["a", "b", "é", "€", "\U0001f600", "\r\n", "\r", "\n", " ", "-"]
 DATA = {"u1": "é€", "u2": "x\r\ny\rz", "u3": "\U0001f600", "a1": [1], "a2": [1, 2], "a3": [1, 2, 3],
-        "sg": "\ud800"}
+        "sg": "\ud800", "rows4": [1, 2, 3, 4], "c2": 2, "c0": 0, "c7": 7}
 
 
 class PG:
@@ -1254,6 +1254,32 @@ CORPUS = [
      "data": DATA, "shopify": True, "kind": "acyclic"},
     {"id": "surrogate", "templates": {"main": "a{{ sg }}b"}, "data": DATA, "shopify": False, "kind": "acyclic"},
     {"id": "nested-capture", "templates": {"main": "ab{% capture x %}cd{% capture y %}éé{% endcapture %}{{ y }}{% endcapture %}{{ x }}"},
+     "data": DATA, "shopify": False, "kind": "acyclic"},
+    # the shopify tablerow tag as a loop construct: the carry is the number of ROWS, whatever cols is
+    {"id": 'tr-cols2', "templates": {'main': '{% tablerow r in rows4 cols: c2 %}{% assign t = 0 | tick %}{% for j in (1..3) %}{% assign t = 1 | tick %}{{ r }}{{ j }}{% endfor %}{% assign t = 1 | tock %}{% endtablerow %}{% assign t = 0 | tock %}'},
+     "data": DATA, "shopify": True, "kind": "acyclic"},
+    {"id": 'tr-cols0', "templates": {'main': '{% tablerow r in rows4 cols: c0 %}{% assign t = 0 | tick %}{% for j in (1..3) %}{% assign t = 1 | tick %}{{ r }}{{ j }}{% endfor %}{% assign t = 1 | tock %}{% endtablerow %}{% assign t = 0 | tock %}'},
+     "data": DATA, "shopify": True, "kind": "acyclic"},
+    {"id": 'tr-cols-undefined', "templates": {'main': '{% tablerow r in rows4 cols: nope %}{% assign t = 0 | tick %}{% for j in (1..3) %}{% assign t = 1 | tick %}{{ r }}{{ j }}{% endfor %}{% assign t = 1 | tock %}{% endtablerow %}{% assign t = 0 | tock %}'},
+     "data": DATA, "shopify": True, "kind": "acyclic"},
+    {"id": 'tr-cols7', "templates": {'main': '{% tablerow r in rows4 cols: c7 %}{% assign t = 0 | tick %}{% for j in (1..3) %}{% assign t = 1 | tick %}{{ r }}{{ j }}{% endfor %}{% assign t = 1 | tock %}{% endtablerow %}{% assign t = 0 | tock %}'},
+     "data": DATA, "shopify": True, "kind": "acyclic"},
+    {"id": 'tr-render', "templates": {'main': "{% tablerow r in rows4 cols: c2 %}{% assign t = 0 | tick %}{% render 'p', r: r %}{% endtablerow %}{% assign t = 0 | tock %}", 'p': '{% for j in (1..3) %}{% assign t = 1 | tick %}{{ r }}{{ j }}{% endfor %}{% assign t = 1 | tock %}'},
+     "data": DATA, "shopify": True, "kind": "acyclic"},
+    {"id": 'tr-include', "templates": {'main': "{% tablerow r in rows4 cols: c2 %}{% assign t = 0 | tick %}{% include 'p' %}{% endtablerow %}{% assign t = 0 | tock %}", 'p': '{% for j in (1..3) %}{% assign t = 1 | tick %}{{ r }}{{ j }}{% endfor %}{% assign t = 1 | tock %}'},
+     "data": DATA, "shopify": True, "kind": "acyclic"},
+    {"id": 'tr-in-for', "templates": {'main': "{% for i in (1..2) %}{% assign t = 2 | tick %}{% tablerow r in a3 cols: c2 %}{% assign t = 0 | tick %}{% render 'p' for a2 as r %}{% assign t = 1 | tock %}{% endtablerow %}{% assign t = 0 | tock %}{% endfor %}{% assign t = 2 | tock %}", 'p': '{% assign t = 1 | tick %}{{ r }}'},
+     "data": DATA, "shopify": True, "kind": "acyclic"},
+    {"id": 'tr-output', "templates": {'main': 'é{% tablerow r in rows4 cols: c2 %}{% assign t = 0 | tick %}€{% capture x %}😀\r\n{{ r }}{% endcapture %}{{ x }}{% if true %}{% capture y %}{{ x }}{{ x }}{% endcapture %}{% endif %}{% endtablerow %}{% assign t = 0 | tock %}'},
+     "data": DATA, "shopify": True, "kind": "acyclic"},
+    {"id": 'tr-namespace', "templates": {'main': "{% assign v0 = 'xxxx' %}{% tablerow r in rows4 cols: c2 %}{% assign t = 0 | tick %}{% assign v1 = 'yyyyyyyy' | append: r %}{% render 'q' %}{% endtablerow %}{% assign t = 0 | tock %}{% assign v1 = 'a much longer value than before, assigned again' %}", 'q': "{% assign w = 'zzzzzzzzzzzz' %}{% assign w = 'zzzzzzzzzzzzzzzzzzzzzzzz' %}"},
+     "data": DATA, "shopify": True, "kind": "acyclic"},
+    # loops across the extends / block / block.super boundary
+    {"id": 'ext-block-in-for', "templates": {'base': 'B{% for i in (1..3) %}{% assign t = 0 | tick %}{% block one %}b{% endblock %}{% endfor %}{% assign t = 0 | tock %}', 'main': "{% extends 'base' %}{% block one %}{% for k in (1..3) %}{% assign t = 1 | tick %}x{% endfor %}{% assign t = 1 | tock %}{% endblock %}"},
+     "data": DATA, "shopify": False, "kind": "acyclic"},
+    {"id": 'ext-super-sequential', "templates": {'base': '{% block one %}{% for i in (1..4) %}{% assign t = 0 | tick %}b{% endfor %}{% assign t = 0 | tock %}{% endblock %}', 'main': "{% extends 'base' %}{% block one %}<{{ block.super }}{{ block.super }}>{% endblock %}"},
+     "data": DATA, "shopify": False, "kind": "acyclic"},
+    {"id": 'ext-super-3x3x3', "templates": {'base': '{% for i in (1..3) %}{% assign t = 0 | tick %}{% block one %}{% for p in (1..3) %}{% assign t = 2 | tick %}b{% endfor %}{% assign t = 2 | tock %}{% endblock %}{% endfor %}{% assign t = 0 | tock %}', 'main': "{% extends 'base' %}{% block one %}{% for k in (1..3) %}{% assign t = 1 | tick %}{{ block.super }}{% endfor %}{% assign t = 1 | tock %}{% endblock %}"},
      "data": DATA, "shopify": False, "kind": "acyclic"},
 ]
 
